@@ -171,7 +171,8 @@ def gen_case(rng, tier):
             ops.append({"op": name, "by": rng.choice(["path", "file"])})
         elif name == "hdf5_load":
             ops.append({"op": name, "by": rng.choice(["path", "file"]),
-                        "other_c": tail(rng, 1, 4, [9, 17], 0.05), "other_d": rng.randint(1, 4)})
+                        "other_c": tail(rng, 1, 4, [9, 17], 0.05), "other_d": rng.randint(1, 4),
+                        "target_floor_factor": rng.choice([None, None, 3.0, 10.0])})
         else:
             ops.append({"op": name})
     return {
@@ -539,11 +540,32 @@ def run_case(case, replay=None):
                                 other = GMMMachine(oc)
                                 other.means = np.zeros((oc, od))
                                 other.variances = np.ones((oc, od))
+                            if o.get("target_floor_factor"):
+                                # the recycled machine has floors of its own, above the
+                                # variances the file holds: none of them may survive the load
+                                other.variance_thresholds = o["target_floor_factor"] * float(
+                                    np.max(np.asarray(m.variances)))
+                                rec.probe("load_target_with_floors_above_the_stored_variances")
+                            saved = [np.array(m.weights), np.array(m.means), np.array(m.variances),
+                                     np.broadcast_to(np.asarray(m.variance_thresholds, float),
+                                                     np.shape(m.variances)).copy()]
                             if o["by"] == "path":
                                 other.load(path)
                             else:
                                 with h5py.File(path, "r") as f:
                                     other.load(f)
+                            got = [np.array(other.weights), np.array(other.means),
+                                   np.array(other.variances),
+                                   np.broadcast_to(np.asarray(other.variance_thresholds, float),
+                                                   np.shape(other.variances))]
+                            for nm_, a_, b_ in zip(("weights", "means", "variances", "floors"),
+                                                   saved, got):
+                                if a_.shape != b_.shape or rel_diff(a_, b_) > 0:
+                                    return Result.violation(
+                                        "stale-state", {"after_op": i, "op": name,
+                                                        "observable": "visible " + nm_ + " after load() "
+                                                        "differ from the saved machine's"},
+                                        **rec.fields())
                             m = other
                             rec.faults["F5_restart_hdf5_load"] = rec.faults.get("F5_restart_hdf5_load", 0) + 1
             except HarnessError:
